@@ -183,6 +183,12 @@ def synthetic_interfaces(rng, count):
                     args.append(MArg('a%d' % j, kind, iface, allow_null))
                 lst.append(MMessage('%s%d' % ('ev' if is_event else 'rq', k), is_event, args,
                                     False, rng.choice([1, 1, 2, 3]), len(lst)))
+        # guaranteed shapes: an event and a request creating objects, a message mentioning an object
+        evs.append(MMessage('spawn', True, [MArg('id', 'n', rng.choice(names), False),
+                                            MArg('serial', 'u', None, False)], False, 1, len(evs)))
+        reqs.append(MMessage('make', False, [MArg('id', 'n', rng.choice(names), False)], False, 1, len(reqs)))
+        reqs.append(MMessage('use', False, [MArg('what', 'o', rng.choice(names + [None]), True),
+                                            MArg('x', 'f', None, False)], False, 1, len(reqs)))
         # one destructor request so ids churn
         reqs.append(MMessage('destroy', False, [], True, 1, len(reqs)))
         out[n] = MInterface(n, rng.randint(1, 4), reqs, evs, synthetic=True)
